@@ -28,3 +28,33 @@ Definition out_eqb (a b : out N) : bool :=
 
 Definition check_c10 (helpers : list (key * N)) (c : list (op N) * list (out N)) : bool :=
   list_eqb out_eqb (run N 0 (N.eqb 0) helpers [] (fst c)) (snd c).
+
+(* ---- C19 ---- *)
+From Plush Require Import model.Iter.
+Definition zlist_eqb := list_eqb Z.eqb.
+
+(* (helper 0=range 1=between 2=until, a, b, cap, observed values, exhausted) *)
+Definition check_c19r (c : nat * Z * Z * nat * list Z * bool) : bool :=
+  let '(h, a, b, cap, obs, fin) := c in
+  let r := match h with O => range_ a b | S O => between_ a b | _ => until_ a end in
+  let '(xs, f) := ryield cap r in
+  zlist_eqb xs obs && Bool.eqb f fin.
+
+(* (n, len, observed groups as index lists or None for an error) *)
+Fixpoint zupto (k : nat) (a : Z) : list Z :=
+  match k with O => [] | S j => a :: zupto j (a + 1)%Z end.
+Definition check_c19g (c : Z * nat * option (list (list Z))) : bool :=
+  let '(n, len, obs) := c in
+  match group_by n (zupto len 0%Z), obs with
+  | None, None => true
+  | Some gs, Some o => list_eqb zlist_eqb gs o
+  | _, _ => false
+  end.
+
+(* len: (argument descriptor, observed: Some n | None = panic) *)
+Definition check_c19l (c : lenarg * option nat) : bool :=
+  match len_model (fst c), snd c with
+  | LenOk n, Some m => Nat.eqb n m
+  | LenPanic, None => true
+  | _, _ => false
+  end.
